@@ -129,6 +129,10 @@ def run_job(job):
     compared = 0
     for pi_, o in enumerate(outs):
         if o.exc is not None:
+            from ..harness import exc_origin
+            if exc_origin(o.exc) == "harness":
+                ob.fail_harness(f"harness raised: {o.exc!r}")
+                continue
             ob.prove(f"no-exception[path{pi_}]", o.pc, False, cex=lambda mm, o=o: dict(kind="exc", exc=repr(o.exc)))
             continue
         r = o.value
@@ -158,40 +162,62 @@ def replay(data):
         return True, c["exc"]
     name = job["solver"]
     kind = "forest" if job.get("route", "restore") == "restore" else "tab"
-    dirs = ckkit.TempDirs()
-    try:
-        d = dirs.new()
-        mk = lambda **kw: ckkit.make_solver(name, ckkit.make_problem(kind, job.get("seed", 0)), epsilon=1e-12, **kw)
-        ref = mk()
-        s = mk(ckdir=d, f=job["f"], m=job["m"], async_=job["async_"])
-        if job["kind"] == "resume":
-            done = 0
-            for k in job["ks"]:
-                s.solve(k)
-                done += k
-                s.checkpoint_manager.wait_until_finished()
-                if job["route"] == "restore":
-                    s = type(s).restore(d)
-                else:
-                    s = mk(ckdir=d, f=job["f"], m=job["m"], async_=job["async_"])
-                    s.load_checkpoint(d)
-            s.solve(job["K"] - done)
-        else:
-            s.solve(job["K"])
-        s.checkpoint_manager.wait_until_finished()
-        ref.solve(job["K"])
-        bad = []
-        if s.iteration != ref.iteration:
-            bad.append(f"iteration {s.iteration} vs {ref.iteration}")
-        if not np.array_equal(np.asarray(s.values), np.asarray(ref.values)):
-            bad.append(f"values {np.asarray(s.values)} vs {np.asarray(ref.values)}")
-        if not np.array_equal(np.asarray(s.policy), np.asarray(ref.policy)):
-            bad.append("policy")
-        if hasattr(ref, "gain") and float(s.gain) != float(ref.gain):
-            bad.append(f"gain {s.gain} vs {ref.gain}")
-        if hasattr(ref, "history_index"):
-            if s.history_index != ref.history_index or not np.array_equal(np.asarray(s.value_history), np.asarray(ref.value_history)):
-                bad.append("value history")
-        return bool(bad), f"{job['name']}: " + ("; ".join(bad) or "resumed run identical to the uninterrupted run")
-    finally:
-        dirs.cleanup()
+    fin = c.get("final_iteration") or [job["K"], job["K"]]
+    target = int(fin[1]) if int(fin[1]) < job["K"] else None   # iteration at which the uninterrupted run converges on this path
+    bad_all = []
+    for variant in ("real-sweeps", "forced-convergence-pattern"):
+        dirs = ckkit.TempDirs()
+        try:
+            d = dirs.new()
+            eps = 1e-12 if variant == "real-sweeps" else 1e-3
+            mk = lambda **kw: ckkit.make_solver(name, ckkit.make_problem(kind, job.get("seed", 0)), epsilon=eps, **kw)
+
+            def force(s):
+                if variant == "real-sweeps":
+                    return s
+                p = getattr(s, "period", 1)
+
+                def upd(bs, a, e, g, v, s=s):
+                    v = np.asarray(v)
+                    inwin = target is not None and target - p < s.iteration <= target
+                    return jnp.asarray(v + 1.0 if inwin else v * 0.5 + (np.arange(len(v)) + 1.0) * 10.0 * s.iteration)
+                s._update_values = upd
+                if name == "pi":
+                    s._calculate_policy_values = lambda policy, values, s=s: jnp.asarray(np.asarray(values) * 0.5 + s.iteration)
+                    s._extract_policy = lambda s=s: (s.policy if (target is not None and s.iteration == target) else (jnp.asarray(s.policy) + 1) % 2)
+                return s
+            ref = force(mk())
+            s = force(mk(ckdir=d, f=job["f"], m=job["m"], async_=job["async_"]))
+            if job["kind"] == "resume":
+                done = 0
+                for k in job["ks"]:
+                    s.solve(k)
+                    done += k
+                    s.checkpoint_manager.wait_until_finished()
+                    if job["route"] == "restore":
+                        s = force(type(s).restore(d))
+                    else:
+                        s = force(mk(ckdir=d, f=job["f"], m=job["m"], async_=job["async_"]))
+                        s.load_checkpoint(d)
+                s.solve(job["K"] - done)
+            else:
+                s.solve(job["K"])
+            s.checkpoint_manager.wait_until_finished()
+            ref.solve(job["K"])
+            bad = []
+            if s.iteration != ref.iteration:
+                bad.append(f"iteration {s.iteration} vs {ref.iteration}")
+            if not np.array_equal(np.asarray(s.values), np.asarray(ref.values)):
+                bad.append(f"values {np.asarray(s.values)} vs {np.asarray(ref.values)}")
+            if not np.array_equal(np.asarray(s.policy), np.asarray(ref.policy)):
+                bad.append("policy")
+            if hasattr(ref, "gain") and float(s.gain) != float(ref.gain):
+                bad.append(f"gain {s.gain} vs {ref.gain}")
+            if hasattr(ref, "history_index"):
+                if s.history_index != ref.history_index or not np.array_equal(np.asarray(s.value_history), np.asarray(ref.value_history)):
+                    bad.append("value history")
+            if bad:
+                bad_all.append(f"[{variant}] " + "; ".join(bad))
+        finally:
+            dirs.cleanup()
+    return bool(bad_all), f"{job['name']}: " + (" | ".join(bad_all) or "resumed run identical to the uninterrupted run")
